@@ -26,7 +26,7 @@ def _core(pid, text, design):
 CORE = {
  "C01": ("Lean theorems: generation-checked slot lookup is sound (lookup_sound), a previous occupant's key is unroutable after reuse (stale_key_unroutable, below 2^16 reuses), reuse does not affect other slots, only vacant slots are handed out, the poller model reports only registered keys with requested readiness, the Generic gate accepts only the source's own (sub-)token; and over the WHOLE loop model (Verif.Inv.TokInv, a Hoare logic for the model's monad): after every history not aborted by a panic, unless a generation wrapped (ghost flag `aliased`, finding F12) (that no source object is ever inserted twice is proven: never_inserted_twice, Verif.Inv.OwnInv), a registration token resolves to no source but the one it was issued for (token_reaches_only_its_source), no dispatcher sits in two slots and the user's token for a slot's occupant is that slot's token (occupants_unique_and_known).", "§6 C01"),
  "C02": ("Lean theorems: readiness existing at registration or arriving later queues the poller entry, a ready level entry is reported and re-queued on every wait, Poll::poll leaves no expired timer behind (for every wheel and instant), the channel drain budget is >= 1 and an exhausted budget re-pings. Causes produced on other threads (ping, channel message/close, woken task) are covered by the wake invariants of PingProto / ChanProto / ExecProto (theorems of C03/C04/C10) and by running those monitors' 'pending cause => reported' clauses on controlled schedules and uncontrolled channel races of the real crate.", "§6 C02"),
- "C05": ("Lean theorems about the timer wheel for every wheel and instant: what a poll pops is due, in non-decreasing deadline order and complete (poll_pops_exactly_the_due_in_order), next_expired is never early and earliest-first, cancel removes the arming and only it, counters are fresh.", "§6 C05"),
+ "C05": ("Lean theorems about the timer wheel for every wheel and instant: what a poll pops is due, in non-decreasing deadline order and complete (poll_pops_exactly_the_due_in_order), next_expired is never early and earliest-first, cancel removes the arming and only it, counters are fresh; and over the WHOLE loop model (Verif.Inv.WheelInv): after every history of operations, callback programs (ToInstant re-arming, cancel, remove, re-insert), failures and dispatches — not aborted, `enable` never applied to a timer still holding a registration (ghost flag reEnabled; enable_twice_leaves_residue shows why) — the counters in the wheel are pairwise distinct (wheel_counters_distinct, the hypothesis of cancel_final), every entry is the current arming of a timer object (wheel_has_no_residue) and no timer has two entries (one_entry_per_timer).", "§6 C05"),
  "C06": ("Lean theorems: after removal the token resolves to a vacant slot (token ops answer InvalidToken, remove is a no-op), after reuse it does not resolve at all, for any number of reuses below 2^16; C06_wrap_false proves the unrestricted claim false at exactly 2^16 reuses (finding F12, replayed on the real loop with 65536 insert/remove cycles); and over the WHOLE loop model (Verif.Inv.TokInv): token_reaches_only_its_source / occupants_unique_and_known for every history (not aborted, no generation wrap; that no object is ever inserted twice is itself proven, Verif.Inv.OwnInv): a token never reaches another source, whatever callbacks removed and re-inserted.", "§6 C06"),
  "C07": ("Lean theorems: an unregistered Generic rejects every event (also those already collected), a timer without registration or with its current arming still in the wheel does not fire, DEL removes the fd from table and ready list and nothing else, and does not consume the eventfd counter (readiness survives); over the whole loop model (Verif.Inv.Ctl): a disable/update issued outside event processing (top level, idle callbacks) acts at once and leaves nothing deferred (top_level_requests_are_immediate), and nothing deferred survives the event it was requested in (so it cannot reach another source).", "§6 C07"),
  "C08": ("Lean theorems about the dispatcher cell: disable/update aimed at the running source return 'deferred' with the state untouched (no borrow, no panic); register (enable) of the running source is the one panicking call = the documented exclusion; and over the WHOLE loop model (Verif.Inv.LifeInv): after every history (not aborted, no generation wrap; that no object is ever inserted twice is itself proven, Verif.Inv.OwnInv) every token in the additional-lifecycle set resolves to an occupied slot whose source has lifecycle hooks (lifecycle_tokens_resolve), so neither hook walk of the next dispatch can reach `unreachable!()` (next_dispatch_before_sleep_does_not_panic, next_dispatch_before_handle_does_not_panic) — including a source that removes itself in its callback and inserts another into the vacated slot (non-vacuity example).", "§6 C08"),
